@@ -12,7 +12,7 @@ Ev == Trace[l]
 
 FxName(f) ==
     CASE f.k = "AddVoucher"     -> "AddVoucher"
-      [] f.k = "SetRVBlob"      -> "SetRVBlob:" \o f.d
+      [] f.k = "SetRVBlob"      -> "SetRVBlob:" \o f.d \o ":" \o ToString(f.ttl)
       [] f.k = "ReplaceVoucher" -> "ReplaceVoucher:" \o f.d
       [] f.k = "ModuleCall"     -> "ModuleCall:" \o ToString(f.m)
 FxNames(fx) == [i \in 1..Len(fx) |-> FxName(fx[i])]
